@@ -1,6 +1,7 @@
 /-
-  The GLUE between the library and the CLI (`/repo/cmd/gts/<command>.go`) for the commands that have no regenerated
-  tie of their own — the hand-written expectation that `Gts/Bridge/CmdFacts.lean` compares with what go2lean
+  The GLUE between the library and the CLI (`/repo/cmd/gts/<command>.go`): the fourteen commands that have no
+  regenerated tie of their own, and the six multi-site commands whose per-record step is regenerated (C15) but whose
+  frame was not — the hand-written expectation that `Gts/Bridge/CmdFacts.lean` compares with what go2lean
   extracts from the Go source on every run (`Gts/Gen/CmdFacts.lean`, generator go2lean/cmdfacts.go).
 
   Every function of these files is given in the generator's normal form (indent, kind, text — locals `v0, v1, …`
